@@ -217,12 +217,30 @@ def push (o : Obj) (p : Pkt) : Obj × List WEv :=
   let c := pushTail b.1 p
   (c.1, a.2 ++ b.2 ++ c.2)
 
+/-- repair 432b305 (head of `attach_fdt`): the FDT is the authority - an OTI / transfer length learned in
+    band that the File entry contradicts is discarded with everything decoded under its partition
+    (nothing has been written yet: the writer only exists once the FDT is attached) -/
+def fdtConflictReset (o : Obj) (file : FileAbs) : Obj :=
+  if o.wsess ≠ .none then o else
+  match o.oti, file.oti with
+  | some oti, some fo =>
+    let partDiffers : Bool :=
+      match Partition.blockPartitioning fo.msbl file.tlen fo.esl with
+      | .ok q => decide (q ≠ (o.aLarge, o.aSmall, o.nbALarge, o.nbBlocks))
+      | .error _ => false
+    if oti.fec ≠ fo.fec ∨ oti.esl ≠ fo.esl ∨ o.tlen ≠ some file.tlen ∨ partDiffers = true then
+      { o with oti := none, tlen := none, blocks := [], blocksOffset := 0, aLarge := 0, aSmall := 0,
+               nbALarge := 0, nbBlocks := 0 }
+    else o
+  | _, _ => o
+
 /-- `attach_fdt` -/
 def attachFdt (o : Obj) (id : Nat) (fdt : FdtAbs) : Obj × Bool × List WEv :=
   if o.fdtId.isSome then (o, false, []) else
   match fdt.getFile o.toi with
   | none => (o, false, [])
   | some file =>
+    let o := fdtConflictReset o file
     let o := match o.oti with
       | none => (match file.oti with
                  | some oti => { o with oti := some oti, tlen := some file.tlen }
